@@ -139,10 +139,14 @@ def run(ctx):
                               {'fn': nm, 'what': 'finite_nonneg', 'gaze': kind})
                 break
     # ---------------- radially varying blur is an averaging operator
-    for _ in range(ctx.n(6, 40)):
-        h, w = rng.choice([(32, 32), (32, 48), (40, 24), (17, 29)])
-        gaze = [rng.random(), rng.random()] if rng.random() < 0.5 else [rng.randrange(w) / (w - 1), rng.randrange(h) / (h - 1)]
-        alpha = rng.uniform(0.05, 0.5)
+    # sizes: ordinary ones, 40x24 (mip chain ends at 2x1: finding F15), and degenerate chains - one pixel wide / high (a single mip level),
+    # chains ending at kx1 - with a pooling constant large enough for levels of detail >= 1 (finding F39)
+    blur_sizes = [(32, 32), (32, 48), (40, 24), (17, 29)]
+    thin_sizes = [(5, 1), (1, 7), (6, 2), (2, 6), (3, 1), (24, 40), (4, 2), (1, 1), (12, 3)]
+    plan = [(rng.choice(blur_sizes), False) for _ in range(ctx.n(6, 40))] + [(sz, True) for sz in (thin_sizes if not ctx.quick else rng.sample(thin_sizes, 5))]
+    for (h, w), thin in plan:
+        gaze = [rng.random(), rng.random()] if rng.random() < 0.5 or w < 2 or h < 2 else [rng.randrange(w) / (w - 1), rng.randrange(h) / (h - 1)]
+        alpha = rng.uniform(0.05, 0.5) if not thin else rng.choice([0.3, 5.0, 20.0])
         mode = rng.choice(['quadratic', 'linear'])
         equi = rng.random() < 0.25
         centre = [rng.uniform(-3, 3), rng.uniform(-1.5, 1.5)] if equi else gaze
